@@ -49,7 +49,7 @@ const maxHistory = 30
 
 func drawCase(t *rapid.T) Case {
 	var c Case
-	c.LevelDB = rapid.IntRange(0, 9).Draw(t, "leveldb") == 0
+	c.LevelDB = rapid.IntRange(0, 7).Draw(t, "leveldb") == 5 // rapid favours small values: compare with a mid-range one
 	n := []int{2, 2, 2, 2, 2, 3, 3, 3, 3, 11}[rapid.IntRange(0, 9).Draw(t, "n")]
 	if n == 11 && rapid.IntRange(0, 1).Draw(t, "really11") == 0 {
 		n = 3
@@ -67,7 +67,7 @@ func drawCase(t *rapid.T) Case {
 	tr := chanops.NewTracker(n, c.Chan.Own)
 	length := rapid.IntRange(1, maxHistory).Draw(t, "length")
 	used := 1 // ChannelCreated
-	if length >= n+5 && rapid.IntRange(0, 6).Draw(t, "preinit") == 0 {
+	if length >= n+5 && rapid.IntRange(0, 6).Draw(t, "preinit") == 4 {
 		a := gen.GenAlloc(gen.AllocOpts{MinAssets: 1, MaxAssets: 2, Parts: n, Bal: gen.GenSmallBal()}).Draw(t, "prealloc")
 		c.PreInit = &a
 		for _, op := range preOps(c) {
